@@ -118,6 +118,15 @@ def build(seed: int, only=None):
         [dict(id="ovw", op="mutate", src=tid, cols=[[name_i, {"fn": "add", "args": [good, {"lit": 1}]}]]), dict(id=oid, op="rename", src="ovw", map=[[good, "q_new"]])])
     add(("rename_hidden_reference", "dropped"), ["ValueError"],
         [dict(id="drp", op="drop", src=tid, cols=[good]), dict(id=oid, op="rename", src="drp", map=[[good, "q_new"]])])
+    # re-selecting (or grouping by) a reference to a hidden column whose *name* is meanwhile carried by another column: the reference
+    # denotes the old column (C09), which is hidden, so the rule for hidden columns applies — the name being present changes nothing
+    add(("reselect_hidden", "name_overwritten"), ["ColumnNotFoundError"],
+        [dict(id="ovw2", op="mutate", src=tid, cols=[[name_i, {"fn": "add", "args": [good, {"lit": 1}]}]]), dict(id=oid, op="select", src="ovw2", cols=[good])])
+    add(("reselect_hidden", "name_renamed_back"), ["ColumnNotFoundError"],
+        [dict(id="drp2", op="drop", src=tid, cols=[good]), dict(id="mk2", op="mutate", src="drp2", cols=[[name_i, {"lit": 1}]]),
+         dict(id=oid, op="select", src="mk2", cols=[good])])
+    add(("group_by_hidden", "name_overwritten"), ["ValueError"],
+        [dict(id="ovw3", op="mutate", src=tid, cols=[[name_i, {"fn": "add", "args": [good, {"lit": 1}]}]]), dict(id=oid, op="group_by", src="ovw3", cols=[good])])
     # 11. slice_head on a grouped table / 9, 10: grouped joins and unions
     gstmt = dict(id="grp", op="group_by", src=tid, cols=[good])
     add(("slice_head_grouped", "verb"), ["ValueError"], [gstmt, dict(id=oid, op="slice_head", src="grp", n=2)])
